@@ -259,6 +259,7 @@ func runC11(res *lp.Result) {
 		"distinct by (type, version, Go type, value)."
 	rng := lp.NewRng(*seed)
 	r := newValRunner(res, "C11")
+	inexactFloats(res)
 	res.Notes = append(res.Notes,
 		"NULL is handed to a scalar codec as a nil pointer or nil interface, and as a nil slice only where the slice is the preferred type "+
 			"(blob, custom, inet); a nil []byte given for a uuid is refused and a nil []rune given for a varchar is written as the empty string (recorded by C14)",
@@ -1212,6 +1213,8 @@ func runC04V(res *lp.Result) {
 					r.rep.add("disagreement", "harness cannot read a decoded value", line, ref.err, a.raw)
 				case a.status == "ok" && ref.status == "err" && typed == nil && containsTime(dt) && strings.Contains(ref.err, "out of range"):
 					res.Count("tolerated/time-out-of-range")
+				case ref.status == "err" && typed == nil && noPreferredGoType(dt):
+					res.Count("tolerated/no-preferred-go-type") // only the untyped destination was tried and the type has no Go representation
 				case a.status != ref.status:
 					r.rep.add("disagreement", "model/implementation differ on val: status of a mutated encoding", line, ref.status+" "+ref.err, a.raw)
 				case a.status == "ok" && a.text != ref.text:
@@ -1230,4 +1233,41 @@ func runC04V(res *lp.Result) {
 		}
 	}
 	r.finish()
+}
+
+// inexactFloats: a float64 that is not exactly a float32, handed to the CQL float codec (directly, by pointer and as a list
+// element), must either be refused or come back equal: a silently rounded value does not round-trip.
+func inexactFloats(res *lp.Result) {
+	listCodec, err := datacodec.NewList(datatype.NewList(datatype.Float))
+	if err != nil {
+		return
+	}
+	for _, f := range []float64{0.1, 1.0 / 3, math.Pi, 16777217, 1e-50, -1.0000000001, 3.4028235e38 * 1.0000001} {
+		for _, ver := range []primitive.ProtocolVersion{primitive.ProtocolVersion2, primitive.ProtocolVersion4} {
+			id := fmt.Sprintf("float via float64 value %v version %v", f, ver)
+			res.Case(id, true)
+			res.Count("rep/float64-inexact")
+			fp := f
+			for name, src := range map[string]interface{}{"float64": f, "*float64": &fp} {
+				enc, err := datacodec.Float.Encode(src, ver)
+				if err != nil {
+					continue // refused: fine
+				}
+				var back float64
+				if _, err := datacodec.Float.Decode(enc, &back, ver); err == nil && back != f {
+					res.Add(lp.Finding{Kind: "violation", What: "value does not round-trip: float via " + name + " (silently rounded)", Input: id,
+						Impl: fmt.Sprintf("encoded as %x, decodes as %v", enc, back)})
+				}
+			}
+			enc, err := listCodec.Encode([]float64{1.5, f}, ver)
+			if err != nil {
+				continue
+			}
+			var back []float64
+			if _, err := listCodec.Decode(enc, &back, ver); err == nil && len(back) == 2 && back[1] != f {
+				res.Add(lp.Finding{Kind: "violation", What: "value does not round-trip: list<float> via []float64 (silently rounded)", Input: id,
+					Impl: fmt.Sprintf("element decodes as %v", back[1])})
+			}
+		}
+	}
 }
